@@ -28,7 +28,7 @@
 use std::{future::Future, pin::Pin, rc::Rc, sync::Arc};
 
 use rand::Rng;
-use rand_chacha::ChaCha8Rng;
+use crate::kit::SimRng as ChaCha8Rng;
 use serde_json::json;
 use zksync_concurrency::{ctx, scope, time, verif::{self, sched_point, tokio_shim as gtokio}};
 
